@@ -245,8 +245,7 @@ class ElementList(MutableSequence):
         """
         if any(c is child for c in self.list):
             self.remove(child)  # the child is moved: it must not be listed twice
-        if child.parent != self.element and child.traversal_parent != self.element and \
-                self.element._is_valid_child(child):
+        if child.parent != self.element and self.element._is_valid_child(child):
             # attach the child here, at the requested position: going through ``child.parent = ...``
             # (as _can_add_child does) would append it at the end of the list and drop the index
             previous = (child._parent, child._traversal_parent)
@@ -257,6 +256,8 @@ class ElementList(MutableSequence):
             except Exception:
                 child._parent, child._traversal_parent = previous
                 raise
+            if previous[1] is self.element:
+                self._remove_from_traversal_index(child)  # a traversal child becomes a real one
             if previous[0] is not None and any(c is child for c in previous[0].children):
                 previous[0].children.remove(child)  # an element has one parent
         if self._can_add_child(child):
